@@ -197,6 +197,14 @@ def stretchesOk : List STok → List Char → Bool
   | .txt s :: r, acc => stretchesOk r (acc ++ s)
   | .mk :: r, acc => !containsOpen acc && acc.getLast? != some '{' && stretchesOk r []
 
+/-- `endraw` tags that carry arguments: they do not close a raw block, they are body text -/
+def endrawArgLooks : List (List Char) :=
+  ["{% endraw x %}", "{%- endraw 'z' -%}", "{% endraw 1 %}", "{%endraw a b%}"].map String.toList
+
+def isEndrawArgLook : Piece → Bool
+  | .look s => endrawArgLooks.contains s
+  | _ => false
+
 def rawItemOk : Piece → Bool
   | .lit _ | .look _ | .opener _ => true
   | _ => false
@@ -223,7 +231,8 @@ def Piece.wf (inComment : Bool) : Piece → Bool
     -- (a `bad` piece may only be a direct child of a comment: inside a nested block it would be parsed)
     !cs.isEmpty && wfL false body && (!hasElse || wfL false eb)
   | .raw _ body _ =>
-    body.all rawItemOk && quotesOk body false && !hasSub "endraw".toList (sourceL body) &&
+    body.all rawItemOk && quotesOk body false &&
+    !hasSub "endraw".toList (sourceL (body.filter fun p => !isEndrawArgLook p)) &&
     !hasSub "endcomment".toList (sourceL body)
   | .comment _ body _ => wfL true body
   | .look _ => false
